@@ -2409,8 +2409,9 @@ class StridedInterval:
         if msb == [0]:
             # All positive numbers
             return self.zero_extend(new_length)
-        if msb == [1]:
-            # All negative numbers
+        if msb == [1] and self.lower_bound <= self.upper_bound:
+            # All negative numbers, in one run (an interval whose members are all negative can still wrap all the
+            # way round with a large stride; that one is split below)
             si = self.copy()
             si._bits = new_length
             mask = (2**new_length - 1) - (2**self.bits - 1)
